@@ -30,6 +30,8 @@ type aSpec struct {
 	hasMatchedLen bool
 	// flagsFalse: batch bids start unflagged (instead of arbitrary provisional flags)
 	flagsFalse bool
+	// allMany: every batch bid is a quantity bid (shape restriction of narrow harness variants)
+	allMany bool
 }
 
 // aState is what the builder produced: the records stored for the auction and
@@ -128,7 +130,7 @@ func buildAuction(e *env.Env, prefix string, sp aSpec) *aState {
 		if sp.batch {
 			typ := types.BidTypeBatchWorth
 			denom := denomPay
-			if nd.Pick(bp+"many", 2) == 1 {
+			if sp.allMany || nd.Pick(bp+"many", 2) == 1 {
 				typ = types.BidTypeBatchMany
 				denom = denomSell
 			}
